@@ -25,7 +25,8 @@ UNITS = {}      # property id -> list of Unit
 
 class Unit:
     def __init__(self, prop, name, prove=None, replay=None, concrete=None, scope="unbounded", tiers=("quick", "thorough"),
-                 timeout_ms=None, expect_min=1, may_raise=None, assumptions=(), bounded_desc=None, weight=1, hints=None):
+                 timeout_ms=None, expect_min=1, may_raise=None, assumptions=(), bounded_desc=None, weight=1, hints=None,
+                 array_mode="cells"):
         self.prop, self.name = prop, name
         self.prove, self.replay, self.concrete = prove, replay, concrete
         self.scope = scope              # "unbounded" | "shape:<desc>"  (per-shape proofs are reported separately)
@@ -37,6 +38,7 @@ class Unit:
         self.bounded_desc = bounded_desc
         self.weight = weight
         self.hints = hints
+        self.array_mode = array_mode
         UNITS.setdefault(prop, []).append(self)
 
 
@@ -124,6 +126,7 @@ def _unit_worker(args):
                externals=[], paths=0, returns=0, raises=0, bounded=None, samples=[])
     tmo = unit.timeout_ms or (10000 if tier == "quick" else 60000)
     try:
+        core.ARRAY_MODE[0] = unit.array_mode
         u = U(unit)
         if unit.prove is not None:
             unit.prove(u)
@@ -145,7 +148,7 @@ def _unit_worker(args):
                     pr = c.result
                     c.obligations.append(dict(name="%s/total[%s]" % (uname, pr.args[0][:80]), kind="total", pc=list(c.pc),
                                               goal=z3.BoolVal(False), trivial=False, meta=dict(where=getattr(pr, "where", [])),
-                                              cells=dict(c.cells)))
+                                              cells=dict(c.cells), array_mode=c.array_mode))
         res["returns"] = nret
         # vacuity guard: some returning path must have a satisfiable path condition
         if unit.prove is not None:
